@@ -451,6 +451,202 @@ def explore(name, K, budget, kinds, judge, alphabet=None, fwd=(-1, 2), maxpos=3,
                             truncation='stratified by first operation' if truncated else None))
 
 
+import re as _re
+_SERIAL = _re.compile(r"'c\d+'")
+SKIP_FIELDS = {'_et_xml_element', '_xsd_tree', 'xsd_tree', 'XSD_TREE', '_XSD_TREE', '_kwargs', '_traversed', '_iterated_leaves',
+               '_reversed_path_to_root', '_lite', 'keep', 'made'}
+
+
+def fingerprint(w):
+    """structural hash of everything reachable from the element that operations can change (container tree with
+    all flags, leaf contents, insertion-ordered list, back-references), children named by their position in the
+    harness's live list.  Two histories with equal fingerprints continue identically: only one is extended."""
+    import hashlib
+    e = w.e
+    X = lib.X().XMLElement
+    live = {id(c): i for i, c in enumerate(w.live)}
+    dead = {id(c): i for i, c in enumerate(w.dead)}
+    memo = {}
+    out = []
+
+    def enc(o, d):
+        if o is None or isinstance(o, (bool, int, float, str)):
+            out.append(repr(o))
+            return
+        i = id(o)
+        if i in live and d > 0:
+            c = o
+            out.append(_SERIAL.sub('c#', 'child%d<%s,%r,%r>' % (live[i], c.name, c._value, sorted(c._attributes.items()))))
+            enc(getattr(c, 'parent_xsd_element', None), d + 1)
+            return
+        if i in dead and d > 0:
+            out.append('dead%s' % ('-last' if o is w.dead[-1] else ''))
+            if o is w.dead[-1]:
+                enc(getattr(o, 'parent_xsd_element', None), d + 1)
+            return
+        if isinstance(o, X) and o is not e:
+            out.append('foreign-element')
+            return
+        if i in memo:
+            out.append('ref%d' % memo[i])
+            return
+        memo[i] = len(memo)
+        if isinstance(o, (list, tuple)):
+            out.append('[')
+            for x in o:
+                enc(x, d + 1)
+                out.append(',')
+            out.append(']')
+        elif isinstance(o, dict):
+            out.append('{')
+            for k in sorted(o, key=repr):
+                out.append(repr(k) + ':')
+                enc(o[k], d + 1)
+            out.append('}')
+        elif isinstance(o, (set, frozenset)):
+            out.append('set' + repr(sorted(map(repr, o))))
+        elif hasattr(o, '__dict__') and type(o).__module__.split('.')[0] in ('musicxml', 'verysimpletree'):
+            out.append(type(o).__name__ + '(')
+            for k, v in sorted(vars(o).items()):
+                if k in SKIP_FIELDS:
+                    continue
+                out.append(k + '=')
+                enc(v, d + 1)
+                out.append(';')
+            out.append(')')
+        else:
+            out.append('<' + type(o).__name__ + '>')
+    enc(e, 0)
+    if w.dead:
+        out.append('|lastdead:')
+        enc(getattr(w.dead[-1], 'parent_xsd_element', None), 1)
+    return hashlib.sha1(''.join(out).encode('utf-8', 'replace')).hexdigest()
+
+
+def explore_states(name, D, budget, kinds_by_depth, judge, alphabet=None, fwd=(-1, 2), maxpos=3, final_ic=None, per_step=None,
+                   xsd_check=True, trace_funcs=True, stop_on_fail=False, prefixes=None, pre_step=None):
+    """breadth-first exploration of the element's reachable states: every state reached within D operations (states
+    with equal structural fingerprints are merged) is expanded by every operation, the operands being solver decisions.
+    judge(world) at the end of each path; per_step(world, step) after every operation.
+    kinds_by_depth: function depth -> list of operation kinds."""
+    A = alphabet or reduced_alphabet(name)
+    simple = simple_names(A)
+    for a in A:
+        try:
+            lib.make(a, xsd_check=False, serial=1)
+        except Exception:
+            pass
+    try:
+        lib.make(name)
+    except Exception:
+        pass
+    stats = collections.Counter()
+    cands, samples, funcs = [], [], set()
+    state = dict(seen=0, nontriv=0, first=trace_funcs)
+    w0 = World(name, xsd_check=xsd_check)
+    seen = {fingerprint(w0)}
+    frontier = [[]] + [list(p) for p in (prefixes or [])]
+    for p in prefixes or []:
+        try:
+            seen.add(fingerprint(run_ops(name, p, xsd_check)))
+        except Exception:
+            pass
+    used = 0
+    truncated = False
+    depth_done = 0
+    states_expanded = 0
+
+    def expand(prefix, depth, max_paths):
+        eng = symx.Engine()
+        symx.ENGINE = eng
+        kinds = kinds_by_depth(depth)
+
+        def harness(eng):
+            w = World(name, xsd_check=xsd_check)
+            state['w'] = w
+            found = []
+            for op in prefix:
+                w.apply(list(op))
+            picker = Picker(eng, A, kinds, fwd, maxpos, simple)
+            if pre_step:
+                pre_step(w)
+            op = picker.pick(w, len(prefix))
+            st = w.apply(op)
+            if per_step:
+                found.extend(per_step(w, st) or [])
+            w.fp = fingerprint(w)
+            if final_ic is not None:
+                w.final_ic = bool(eng.choose('final_ic', lambda: (z3.Int('final_ic'), [z3.Int('final_ic') >= min(final_ic), z3.Int('final_ic') <= max(final_ic)])))
+            found.extend(judge(w) or [])
+            return w, found
+        n = 0
+        new = []
+        for decisions, res in eng.explore(harness, max_paths=max_paths):
+            n += 1
+            if res == ('TIMEOUT',):
+                w = state['w']
+                ops = [s.op for s in w.steps] + [getattr(w, 'current', None)]
+                cands.append(dict(cls=name, kind='hang', witness=dict(ops=ops), detail='path exceeded %.1fs' % eng.path_timeout_s))
+                continue
+            w, found = res
+            ops = [s.op for s in w.steps[:len(prefix) + 1]]
+            if state['first']:
+                state['first'] = False
+                with symx.FuncTrace() as ft:
+                    try:
+                        run_ops(name, ops, xsd_check)
+                    except BaseException:
+                        pass
+                funcs.update(ft.funcs)
+            state['seen'] += 1
+            if getattr(w, 'nontrivial', True):
+                state['nontriv'] += 1
+            if getattr(w, 'skipped', False):
+                stats['skipped_no_twin'] += 1
+            for kind, detail in found:
+                wit = dict(ops=ops)
+                if final_ic is not None:
+                    wit['ic'] = bool(getattr(w, 'final_ic', False))
+                cands.append(dict(cls=name, kind=kind, witness=wit, detail=str(detail)[:300]))
+            if w.fp not in seen and not (stop_on_fail and not w.steps[len(prefix)].ok):
+                seen.add(w.fp)
+                new.append(ops)
+            if len(samples) < 2 and depth >= 2:
+                samples.append(dict(cls=name, ops=ops, outcomes=[('ok' if s.ok else s.exc) for s in w.steps[:len(ops)]],
+                                    path_condition=[list(map(str, d)) for d in decisions][:12]))
+        for kk, v in eng.stats.items():
+            stats[kk] += v
+        return n, new, eng.truncated
+
+    for depth in range(1, D + 1):
+        nxt = []
+        for prefix in frontier:
+            if used >= budget:
+                truncated = True
+                break
+            n, new, tr = expand(prefix, depth if not prefixes else max(depth, 3), budget - used)
+            used += n
+            states_expanded += 1
+            nxt.extend(new)
+            if tr:
+                truncated = True
+                break
+        if truncated:
+            break
+        depth_done = depth
+        frontier = nxt
+        if not frontier:
+            break
+    if truncated:
+        stats['truncated_units'] += 1
+    stats['states'] += len(seen)
+    stats['states_expanded'] += states_expanded
+    return dict(stats=stats, cands=cands, samples=samples, funcs=sorted(funcs), nontrivial=state['nontriv'], evaluations=state['seen'],
+                bounds=dict(depth=D, complete_up_to_depth=depth_done, alphabet=len(A), full_alphabet=len(lib.content_model(name).names),
+                            budget=budget, used=used, distinct_states=len(seen), states_expanded=states_expanded,
+                            forward=list(fwd), truncated=truncated, all_states_within_depth=(not truncated)))
+
+
 def _ops_from_decisions(decisions):
     return [list(map(str, d)) for d in decisions]
 
